@@ -582,7 +582,9 @@ def _chunk(args):
         tmpl_on = copy.deepcopy(tmpl)
         for p_on, v_on in ((("graph", "enabled"), True), (("graph", "merge", "enabled"), True), (("graph", "split", "enabled"), True), (("graph", "promotion", "enabled"), True),
                            (("t2", "hybrid", "enabled"), True), (("t2", "quality", "enabled"), True), (("t2", "quality", "mmr", "enabled"), True), (("t3", "allow_reflection"), True),
-                           (("scheduler", "enabled"), True), (("perf", "enabled"), True), (("perf", "metrics", "report_memory"), True)):
+                           (("scheduler", "enabled"), True), (("perf", "enabled"), True), (("perf", "metrics", "report_memory"), True),
+                           # every retrieved pair is observed by the graph layer (its caps and counters get to act)
+                           (("graph", "coactivation_threshold"), 0.0), (("t2", "sim_threshold"), -1.0)):
             try:
                 set_at(tmpl_on, p_on, v_on)
             except Exception:
@@ -599,6 +601,29 @@ def _chunk(args):
         sweep += [(p_ + ("extra_unknown",), v_) for p_ in [()] + interior for v_ in ({1: 2, "x": 3}, [{"a": 1, 2: 3}], {"k": {None: 1, "a": 0}}, {"k": [NAN]})]
         nchunks = par.NWORK
         seen_norm = set()
+        # cross-field rules: two leaves of one section at once - a sibling at an ordinary non-default value while the other
+        # takes the values that coerce to 0 / cannot be coerced / leave the float range (validator and CLI oracles only)
+        by_sec = {}
+        for p_ in allp:
+            if len(p_) >= 2 and isinstance(get_at(tmpl, p_), (int, float)) and not isinstance(get_at(tmpl, p_), bool):
+                by_sec.setdefault(p_[:-1], []).append(p_)
+        pair_jobs = []
+        for sec_, leaves_ in sorted(by_sec.items()):
+            for a_ in leaves_:
+                for b_ in leaves_:
+                    if a_ != b_:
+                        for va_ in (0.5, 3):
+                            for vb_ in (0, None, "soon", [], 10 ** 400, -1, 1e308):
+                                pair_jobs.append((a_, va_, b_, vb_))
+        for j, (a_, va_, b_, vb_) in enumerate(pair_jobs):
+            if j % nchunks != i % nchunks:
+                continue
+            for start in ("tmpl", "empty"):
+                cfg = copy.deepcopy(tmpl) if start == "tmpl" else {}
+                set_at(cfg, a_, va_)
+                set_at(cfg, b_, copy.deepcopy(vb_))
+                sess.count("pairwise_cases")
+                check_case(cfg, [[list(b_), "pair:" + repr(vb_)[:12] + "+" + ".".join(a_[-1:]) + "=" + repr(va_)]], sess, engine=False, script=(j % 7 == 0), seen_norm=seen_norm)
         for j, (p_, v_) in enumerate(sweep):
             if j % nchunks != i % nchunks:
                 continue
